@@ -67,7 +67,7 @@ func genC08(t *rapid.T) C08Case {
 		src := C08Source{Tree: tr}
 		switch pickW(t, "directive", 3, 5, 1) {
 		case 1:
-			src.Prefix = directive(rapid.IntRange(0, 15).Draw(t, "dirmask"), rapid.IntRange(0, 3).Draw(t, "dirvar"))
+			src.Prefix = directive(rapid.IntRange(0, 15).Draw(t, "dirmask"), rapid.IntRange(0, directiveVariants-1).Draw(t, "dirvar"))
 		case 2:
 			src.Prefix = rapid.SampledFrom(malformedDirectives).Draw(t, "malformed")
 		}
@@ -75,7 +75,7 @@ func genC08(t *rapid.T) C08Case {
 	}
 	// at least one source with a directive and one without, so that a leak could show
 	if c.Sources[0].Prefix == "" {
-		c.Sources[0].Prefix = directive(rapid.IntRange(0, 15).Draw(t, "dirmask0"), rapid.IntRange(0, 3).Draw(t, "dirvar0"))
+		c.Sources[0].Prefix = directive(rapid.IntRange(0, 15).Draw(t, "dirmask0"), rapid.IntRange(0, directiveVariants-1).Draw(t, "dirvar0"))
 	}
 	c.Sources[len(c.Sources)-1].Prefix = ""
 	na := rapid.IntRange(2, 12).Draw(t, "nactions")
